@@ -150,3 +150,21 @@ Section LeaveToPendingAdmin.
     cbn [andb snd fst]. split; [reflexivity|]. split; [exact Ep|reflexivity].
   Qed.
 End LeaveToPendingAdmin.
+
+(* ---- a session restarted with another snapshot retention: the next snapshot taken brings the stored number within the new
+   limit, whatever was stored before *)
+Section RetentionChange.
+Lemma take_snapshot_within_retention c e : lenN (queue (take_snapshot c e)) <= retention (take_snapshot c e).
+Proof. unfold take_snapshot. cbn [queue retention set_queue]. apply prune_len. Qed.
+
+Lemma restart_with_then_commit c r e cm :
+  lenN (queue (fst (apply_commit (restart_with c r) e cm))) <= r.
+Proof.
+  unfold apply_commit.
+  destruct (evicted_by (restart_with c r) (snd cm)); cbn [fst put_dedup set_dedup set_core queue];
+    change r with (retention (take_snapshot (restart_with c r) e)) at 2; apply take_snapshot_within_retention.
+Qed.
+
+Lemma restart_with_keeps_state c r : kc (restart_with c r) = kc c /\ msgs (restart_with c r) = msgs c /\ dedup (restart_with c r) = dedup c /\ retention (restart_with c r) = r.
+Proof. repeat split. Qed.
+End RetentionChange.
